@@ -1,3 +1,336 @@
-/- C05 — property theorems (stub: the property is not claimed yet). -/
+/-
+  C05 — each mutation has exactly its documented effect; failed calls change nothing.
+
+  Model: AHP/Model/Dom.lean (`step`), AHP/Model/DomView.lean (serialisation).
+  Specification: AHP/Lemmas/DomSpec.lean — reference documents are plain trees of blocks without any
+  cached field; `sstep` is the documented effect of each call on the block list of its target only.
+  `abs` forgets `children`, `text`, `parentNode`, `ownerDocument`.
+-/
+import AHP.Lemmas.DomHtml
 namespace AHP.C05
+open AHP AHP.Dom AHP.Dom.Spec
+
+/-- A call whose fragment argument does not have the reserved wrapper name as its single root
+    (input with that name is outside the domain of the fragment properties). -/
+def plain : Op → Prop
+  | .appendInnerHTML _ p => Parsed.plain p
+  | _ => True
+
+/-! ## C05a — refinement -/
+
+/-- C05a. In every invariant state, every call does to the document exactly what the documented effect
+    does to the reference document, returns the same value / raises the same exception, and is
+    inside the model exactly when the reference accepts it (both sides `none` together). -/
+theorem step_refines_spec (w : World) (op : Op) (hw : Inv w) (hp : plain op) :
+    (step w op).map absR = sstep (absW w) op := by
+  cases op with
+  | appendText t s => exact abs_appendText hw t s
+  | appendChild t c =>
+    cases c with
+    | none =>
+      simp only [step, sstep, Option.map_map]
+      have : sfindL? t (absW w).roots = (w.find? t).map absP := sfindL?_absL t w.roots
+      rw [this, Option.map_map]
+      rfl
+    | some c => exact abs_appendChild hw t c
+  | appendBlock t b => exact abs_appendBlock hw t b
+  | appendBlocks t bs => exact abs_appendBlocks hw t bs
+  | appendInnerHTML t p => exact abs_appendInnerHTML hw t p hp
+  | insertBefore t b r => exact abs_insert hw false t b r
+  | insertAfter t b r => exact abs_insert hw true t b r
+  | removeText t s => exact abs_removeText hw t s
+  | removeTextAll t s => exact abs_removeTextAll hw t s
+  | remove t => exact abs_remove hw t
+  | removeChild t c => exact abs_removeChild hw t c
+  | removeChildren t cs => exact abs_removeBlocks hw t (cs.map .elm)
+  | removeBlock t b => exact abs_removeBlock hw t b
+  | removeBlocks t bs => exact abs_removeBlocks hw t bs
+  | setAttribute t k v => exact abs_setAttribute hw t k v
+
+/-- C05a for histories: the observable document after any history equals the reference document
+    driven by the same calls. -/
+theorem history_refines_spec (ops : List Op) (w : World) (hw : Inv w) (hp : ∀ op ∈ ops, plain op) :
+    (run w ops).map absW = srun (absW w) ops := by
+  induction ops generalizing w with
+  | nil => simp [run, srun]
+  | cons op ops ih =>
+    simp only [run, srun, ← step_refines_spec w op hw (hp op (by simp))]
+    cases h : step w op with
+    | none => simp
+    | some r =>
+      simp only [Option.map_some, absR]
+      exact ih r.1 (step_Inv' (w' := r.1) (v := r.2) op hw (by simpa using h)) (fun o ho => hp o (by simp [ho]))
+
+/-! ## C05b — failed calls change nothing -/
+
+theorem apply_raise {w w' : World} {t loc k} (h : w.apply t loc = some (w', .raise k))
+    (hl : ∀ m bs e, (loc m bs).1 = some e → ∀ k, (loc m bs).2 ≠ .raise k) : w' = w := by
+  unfold World.apply at h
+  split at h
+  · simp at h
+  · rename_i m bs hf
+    split at h
+    · simp only [Option.some.injEq, Prod.mk.injEq] at h; exact h.1.symm
+    · rename_i e he
+      simp only [Option.some.injEq, Prod.mk.injEq] at h
+      exact absurd h.2 (hl m bs e he k)
+
+theorem appendBlock_not_raise {w w' : World} {t b k} (h : w.appendBlock t b = some (w', .raise k)) : False := by
+  cases b with
+  | txt s => simp [World.appendBlock] at h
+  | elm c =>
+    simp only [World.appendBlock, World.appendChild] at h
+    split at h
+    · simp at h
+    · unfold World.apply at h
+      split at h
+      · simp at h
+      · simp at h
+
+theorem removeChild_raise {w w' : World} {t c k} (h : w.removeChild t c = some (w', .raise k)) : False := by
+  unfold World.removeChild World.apply at h
+  split at h
+  · simp at h
+  · rename_i m bs hf
+    have : ∀ k, (locRemoveChild c m bs).2 ≠ .raise k := by
+      intro k; unfold locRemoveChild; split
+      · split <;> simp
+      · simp
+    split at h <;> (simp only [Option.some.injEq, Prod.mk.injEq] at h; exact this k h.2)
+
+theorem removeText_raise {w w' : World} {t s k} (h : w.removeText t s = some (w', .raise k)) : False := by
+  unfold World.removeText World.apply at h
+  split at h
+  · simp at h
+  · rename_i m bs hf
+    have : ∀ k, (locRemoveText s m bs).2 ≠ .raise k := by
+      intro k; unfold locRemoveText; split <;> simp
+    simp only [Option.some.injEq, Prod.mk.injEq] at h
+    exact this k h.2
+
+/-- C05b (exceptions). Whatever the call: if it raises, the whole world is exactly as it was. -/
+theorem raising_call_changes_nothing (w w' : World) (op : Op) (k : String)
+    (h : step w op = some (w', .raise k)) : w' = w := by
+  cases op with
+  | appendText t s =>
+    simp only [step, World.appendText] at h
+    exact apply_raise h (fun m bs e _ k => by simp)
+  | appendChild t c =>
+    cases c with
+    | none =>
+      simp only [step, Option.map_eq_some_iff, Prod.mk.injEq] at h
+      obtain ⟨_, _, he, _⟩ := h
+      exact he.symm
+    | some c => exact (appendBlock_not_raise (b := .elm c) h).elim
+  | appendBlock t b => exact (appendBlock_not_raise h).elim
+  | appendBlocks t bs => simp [step, World.appendBlocks] at h
+  | appendInnerHTML t p => simp [step, World.appendInnerHTML] at h
+  | insertBefore t b r | insertAfter t b r =>
+    simp only [step, World.insert] at h
+    split at h
+    · exact (appendBlock_not_raise h).elim
+    · split at h
+      · refine apply_raise h ?_
+        intro m bs e he k
+        unfold locInsertText at he ⊢
+        split <;> simp_all
+      · split at h
+        · simp at h
+        · split at h
+          · simp at h
+          · split at h
+            · simp only [Option.some.injEq, Prod.mk.injEq] at h; exact h.1.symm
+            · simp at h
+  | removeText t s => exact (removeText_raise h).elim
+  | removeTextAll t s =>
+    simp only [step, World.removeTextAll] at h
+    exact apply_raise h (fun m bs e _ k => by simp [locRemoveTextAll])
+  | remove t =>
+    simp only [step, World.remove] at h
+    split at h
+    · simp at h
+    · split at h <;> simp at h
+  | removeChild t c => exact (removeChild_raise h).elim
+  | removeChildren t cs => simp [step, World.removeChildren, World.removeBlocks] at h
+  | removeBlock t b =>
+    cases b with
+    | elm c => exact (removeChild_raise h).elim
+    | txt s => exact (removeText_raise h).elim
+  | removeBlocks t bs => simp [step, World.removeBlocks] at h
+  | setAttribute t k' v =>
+    simp only [step, World.setAttribute] at h
+    split at h
+    · simp at h
+    · refine apply_raise h ?_
+      intro m bs e he k
+      unfold locSetAttribute at he ⊢
+      split <;> simp_all
+
+/-- reference block that is not a child: ValueError, nothing changed (text argument) -/
+theorem insert_text_ref_not_child (w : World) (after : Bool) (t : Nat) (s : Str) (r : Blk) (m : Meta) (bs : List DN)
+    (hf : w.find? t = some (m, bs)) (hr : indexOf r bs = none) :
+    w.insert after t (.txt s) (some r) = some (w, .raise "ValueError") := by
+  simp [World.insert, World.apply, hf, locInsertText, hr]
+
+/-- reference block that is not a child: ValueError, nothing changed, the element argument stays detached -/
+theorem insert_el_ref_not_child (w : World) (after : Bool) (t c : Nat) (r : Blk) (ct : DN) (rest : List DN) (m : Meta) (bs : List DN)
+    (hc : takeRoot c w.roots = some (ct, rest)) (hf : findL? t rest = some (m, bs)) (hr : indexOf r bs = none) :
+    w.insert after t (.elm c) (some r) = some (w, .raise "ValueError") := by
+  simp [World.insert, hc, hf, hr]
+
+/-- `appendChild(None)`: KeyError, nothing changed -/
+theorem appendChild_none (w : World) (t : Nat) (m : Meta) (bs : List DN) (hf : w.find? t = some (m, bs)) :
+    step w (.appendChild t none) = some (w, .raise "KeyError") := by
+  simp [step, hf]
+
+/-- invalid attribute name: KeyError, nothing changed -/
+theorem setAttribute_invalid (w : World) (t : Nat) (k v : Str) (m : Meta) (bs : List DN) (hf : w.find? t = some (m, bs))
+    (hs : specialAttr k = false) (hk : validAttrName k = false) :
+    step w (.setAttribute t k v) = some (w, .raise "KeyError") := by
+  simp [step, World.setAttribute, hs, World.apply, hf, locSetAttribute, hk]
+
+/-- removing a non-child: the call reports None and nothing changed -/
+theorem removeChild_non_child (w : World) (hw : Inv w) (t c : Nat) (m : Meta) (bs : List DN)
+    (hf : w.find? t = some (m, bs)) (hc : c ∉ elemIds bs) :
+    step w (.removeChild t c) = some (w, .none) := by
+  obtain ⟨p, o, hk⟩ := findL?_roots_OK t w.roots hw.roots hf
+  simp only [OK_el] at hk
+  have : c ∉ m.children := hk.2.2.1 ▸ hc
+  simp [step, World.removeChild, World.apply, hf, locRemoveChild, this]
+
+/-- conversely: whenever `removeChild` reports None in an invariant state, nothing changed -/
+theorem removeChild_none_changes_nothing (w w' : World) (hw : Inv w) (t c : Nat)
+    (h : step w (.removeChild t c) = some (w', .none)) : w' = w := by
+  simp only [step, World.removeChild, World.apply] at h
+  split at h
+  · simp at h
+  · rename_i m bs hf
+    obtain ⟨p, o, hk⟩ := findL?_roots_OK t w.roots hw.roots hf
+    simp only [OK_el] at hk
+    split at h
+    · simp only [Option.some.injEq, Prod.mk.injEq] at h; exact h.1.symm
+    · rename_i e he
+      simp only [Option.some.injEq, Prod.mk.injEq] at h
+      exfalso
+      have hv := h.2
+      unfold locRemoveChild at hv he
+      split at hv
+      · rename_i hc
+        cases hr : removeFirstEl c bs with
+        | none => exact absurd (hk.2.2.1 ▸ hc) (removeFirstEl_none c bs hr)
+        | some r => rw [hr] at hv; simp at hv
+      · rename_i hc
+        rw [if_neg hc] at he; simp at he
+
+/-- `remove()` on an element without parent: False, nothing changed -/
+theorem remove_root (w : World) (t : Nat) (m : Meta) (bs : List DN) (hf : w.find? t = some (m, bs)) (hp : m.parent = none) :
+    step w (.remove t) = some (w, .bool false) := by
+  simp [step, World.remove, hf, hp]
+
+/-- `removeText` without a matching text block: None, and in an invariant state nothing changed
+    (the text cache is regenerated to the value it had) -/
+theorem removeText_no_match (w : World) (hw : Inv w) (t : Nat) (s : Str) (m : Meta) (bs : List DN)
+    (hf : w.find? t = some (m, bs)) (hn : replaceFirstText s bs = none) :
+    step w (.removeText t s) = some (w, .none) := by
+  obtain ⟨p, o, hk⟩ := findL?_roots_OK t w.roots hw.roots hf
+  simp only [OK_el] at hk
+  have hloc : locRemoveText s m bs = (⟨m, bs, []⟩, .none) := by
+    unfold locRemoveText; rw [hn]
+    simp only [Prod.mk.injEq, and_true]
+    congr 1
+    cases m; simp_all
+  simp only [step, World.removeText, World.apply, hf, hloc]
+  congr 2
+  simp only [World.edit]
+  rw [updL_found_id t _ w.roots hw.nodup hf (by simp [hloc])]
+  cases w; simp
+
+/-! ## C05c — frame -/
+
+/-- C05c. Whatever a call through `World.apply` does at its target `t`, every element outside the
+    subtree of `t` keeps all its fields (name, attributes, self-closing flag, children, text,
+    parentNode, ownerDocument); what leaves the target is appended to the roots. -/
+theorem frame_apply (w w' : World) (t : Nat) (loc : Meta → List DN → Option Edit × Val) (v : Val)
+    (hid : ∀ m bs e, (loc m bs).1 = some e → e.m.id = m.id)
+    (h : w.apply t loc = some (w', v)) :
+    ∃ kept out, w'.roots = kept ++ out ∧ outsideL t kept = outsideL t w.roots := by
+  unfold World.apply at h
+  split at h
+  · simp at h
+  · split at h
+    · simp only [Option.some.injEq, Prod.mk.injEq] at h
+      exact ⟨w.roots, [], by simp [← h.1], rfl⟩
+    · simp only [Option.some.injEq, Prod.mk.injEq] at h
+      refine ⟨_, _, by rw [← h.1]; rfl, outsideL_updL t _ ?_ w.roots⟩
+      intro m bs
+      cases he : (loc m bs).1 with
+      | none => simp [he]
+      | some e => simpa [he] using hid m bs e he
+
+/-! ## C05d — serialisation laws -/
+
+/-- outerHTML = start tag + innerHTML + end tag, for every element. -/
+theorem outerHTML_law (m : Meta) (bs : List DN) :
+    outerHTML (.el m bs) = startTag m ++ innerHTML m bs ++ endTag m := by
+  simp [outerHTML, innerHTML]
+
+/-- innerHTML = the concatenation of the blocks' HTML, for every consistent element (for a
+    self-closing element both sides are empty because it has no content). -/
+theorem innerHTML_law (m : Meta) (bs : List DN) (par own : Option Nat) (h : OK par own (.el m bs)) :
+    innerHTML m bs = (bs.map outerHTML).flatten := by
+  rw [← innerL_eq_flatten]
+  simp only [innerHTML]
+  split
+  · rename_i hsc
+    simp only [OK_el] at h
+    exact (noContent_innerL bs (h.2.2.2.2.1 hsc)).symm
+  · rfl
+
+/-- textContent = the document-order concatenation of all text. -/
+theorem textContent_law (m : Meta) (bs : List DN) : textContent (.el m bs) = (bs.map textContent).flatten := by
+  simp [textContent, textContentL_eq_flatten]
+
+/-- The serialisation of a document is a function of its blocks alone: it equals the serialisation of
+    the reference document (no cached field takes part). -/
+theorem serialisation_depends_on_blocks_only (n : DN) : outerHTML n = shtml (abs n) ∧ textContent n = stext (abs n) :=
+  ⟨outerHTML_abs n, textContent_abs n⟩
+
+/-- After any history, outerHTML / textContent of every root are those of the reference document
+    driven by the same calls (C05a + the two lemmas above). `str()`, `toHTML`, `asHTML`, `getHTML` are
+    `outerHTML` in the code (Tags.py `__str__`, `toHTML` and its two aliases), one function in the model. -/
+theorem history_serialisation (ops : List Op) (w w' : World) (sw' : SWorld) (hw : Inv w) (hp : ∀ op ∈ ops, plain op)
+    (h : run w ops = some w') (hs : srun (absW w) ops = some sw') :
+    w'.roots.map outerHTML = sw'.roots.map shtml ∧ w'.roots.map textContent = sw'.roots.map stext := by
+  have := history_refines_spec ops w hw hp
+  rw [h, hs] at this
+  simp only [Option.map_some, Option.some.injEq] at this
+  rw [← this]
+  simp only [absW, absL_eq_map, List.map_map]
+  exact ⟨List.map_congr_left (fun n _ => outerHTML_abs n), List.map_congr_left (fun n _ => textContent_abs n)⟩
+
+/-! ## Non-vacuity -/
+
+def exSeed : FN := .el "div".toList [] false [.text "a".toList, .el "b".toList [] false [.text "x".toList], .el "br".toList [] false []]
+def exSpares : List FN := [.el "span".toList [] false [], .el "p".toList [] true []]
+def exOps : List Op :=
+  [.insertBefore 0 (.elm 3) (some (.txt "a".toList)), .appendText 4 "t".toList, .removeChild 0 1, .appendChild 3 (some 1),
+   .insertAfter 0 (.txt "z".toList) (some (.elm 2)), .remove 1, .appendInnerHTML 2 (.multi [.text "hi".toList, .el "i".toList [] false []])]
+
+example : (run (initWorld false exSeed exSpares) exOps).isSome = true := by decide
+example : ∀ op ∈ exOps, plain op := by
+  intro op h
+  simp only [exOps, List.mem_cons, List.not_mem_nil, or_false] at h
+  rcases h with rfl | rfl | rfl | rfl | rfl | rfl | rfl <;> simp [plain, Parsed.plain]
+example : (step (initWorld false exSeed exSpares) (.insertBefore 0 (.txt "q".toList) (some (.txt "zz".toList)))).map (·.2)
+    = some (.raise "ValueError") := by
+  show ((initWorld false exSeed exSpares).insert false 0 (.txt "q".toList) (some (.txt "zz".toList))).map (·.2) = _
+  cases hf : (initWorld false exSeed exSpares).find? 0 with
+  | none => exact absurd hf (by decide)
+  | some r =>
+    obtain ⟨m, bs⟩ := r
+    have hr : indexOf (.txt "zz".toList) bs = none := by
+      have : ((initWorld false exSeed exSpares).find? 0).map (fun r => indexOf (.txt "zz".toList) r.2) = some none := by decide
+      rw [hf] at this; simpa using this
+    rw [insert_text_ref_not_child _ false 0 _ _ m bs hf hr]; rfl
+
 end AHP.C05
